@@ -58,6 +58,7 @@ func TestC10(t *testing.T) {
 	for i := 0; i < mon.Pick(120, 5000); i++ {
 		targets = append(targets, CustomTarget(i))
 	}
+	targets = append(targets, HybridListedOnlyTargets()...)
 	targets = append(targets, NoShareTargets()...) // no usable share in the first hello: every TLS 1.3 server answers with a HelloRetryRequest
 	type job struct {
 		t  Target
@@ -129,6 +130,12 @@ func TestC10(t *testing.T) {
 			} else {
 				sig["kind"] = "client_aborts_offered_choice"
 				sig["class"] = class
+				if g := hrrGroup(h.S2C); g == 0x11ec || g == 0x6399 {
+					// F44 (known): the server asked, by HelloRetryRequest, for a hybrid group the
+					// hello lists without a share; the client cannot generate a hybrid share then.
+					// One signature for the whole class, whatever the target and grid case.
+					sig = map[string]string{"kind": "client_aborts_offered_choice", "class": "hybrid_group_requested_by_hello_retry_request"}
+				}
 				if j.gc.Dim == "group13" || j.gc.Dim == "group12" || j.gc.Dim == "suite13" || j.gc.Dim == "suite12" {
 					// keep the signature specific: which offered value
 				} else {
